@@ -275,25 +275,25 @@ Definition is_cond o := match o with Conditional _ _ _ _ => true | _ => false en
 Definition is_funcdefn o := match o with FuncDefn _ _ _ => true | _ => false end.
 
 Definition child_ops (g : graph) (p : N) : list vop :=
-  flat_map (fun c => match op_of g c with Some o => [o] | None => [] end) (children g p).
+  flat_map (fun x => if negb (fst x =? 0) && (n_parent (snd x) =? p) then [n_op (snd x)] else []) (indexed (g_nodes g)).
 
+(* the check for one node with operation o whose children have operations cs (in order) *)
+Definition fs_check (o : vop) (cs : list vop) : bool :=
+  if is_dfparent o then
+    match cs with
+    | a :: b :: rest => is_input a && is_output b &&
+                        forallb (fun c => negb (is_input c) && negb (is_output c)) rest
+    | _ => false
+    end
+  else if is_cfg o then
+    match cs with
+    | a :: b :: rest => is_block a && is_exit b && forallb (fun c => negb (is_exit c)) rest
+    | _ => false
+    end
+  else if is_cond o then negb (match cs with [] => true | _ => false end)
+  else true.
 Definition r_first_second (g : graph) : bool :=
-  forallb (fun x =>
-    let o := n_op (snd x) in
-    let cs := child_ops g (fst x) in
-    if is_dfparent o then
-      match cs with
-      | a :: b :: rest => is_input a && is_output b &&
-                          forallb (fun c => negb (is_input c) && negb (is_output c)) rest
-      | _ => false
-      end
-    else if is_cfg o then
-      match cs with
-      | a :: b :: rest => is_block a && is_exit b && forallb (fun c => negb (is_exit c)) rest
-      | _ => false
-      end
-    else if is_cond o then negb (match cs with [] => true | _ => false end)
-    else true) (indexed (g_nodes g)).
+  forallb (fun x => fs_check (n_op (snd x)) (child_ops g (fst x))) (indexed (g_nodes g)).
 
 (* ------------------------------------------------------------------ rule 4: I/O rows = container's signature *)
 Definition r_io_rows (g : graph) : bool :=
